@@ -229,8 +229,16 @@ func main() {
 					confirmed = false
 				}
 			}
+			historyDependent := false
 			if !confirmed {
-				die(2, "HARNESS-ERROR violation %s/%s did not reproduce on re-execution (nondeterminism in the harness)", ck.ID, v.Key)
+				// One execution that cannot be reproduced is a harness matter. The same violation reported by
+				// several executions is not: the code under check did that, repeatedly; that the recorded
+				// execution does not show it when run alone means the behaviour depends on what earlier requests
+				// of the same process left behind (a cache, a memo, a counter) — which is reported as such.
+				if c.Res.KeySeen[v.Key] < 3 {
+					die(2, "HARNESS-ERROR violation %s/%s did not reproduce on re-execution (nondeterminism in the harness)", ck.ID, v.Key)
+				}
+				historyDependent = true
 			}
 			p, err := fw.WriteReplay(*replays, v)
 			if err != nil {
@@ -238,6 +246,9 @@ func main() {
 			}
 			unlisted++
 			fmt.Printf("VIOLATION property=%s replay=%s\n  key=%s\n  %s\n", ck.ID, p, v.Key, v.What)
+			if historyDependent {
+				fmt.Printf("  (reported by %d executions; the recorded one does not show it when run alone: the behaviour depends on state left by earlier requests in the same process)\n", c.Res.KeySeen[v.Key])
+			}
 		}
 		wall := time.Since(start)
 		if *evidence != "" {
